@@ -106,7 +106,7 @@ def _pgraph(pg, what):
     return [pg.pattern, _ints(pg.anchor, what)]
 
 
-def dump_proxy(proxy, any_parser=False):
+def dump_proxy(proxy, any_parser=False, custom_samplers=()):
     """cfg dict of a live Proxy object; raises Unexpected on anything outside the modelled domain
     (custom samplers, unique group samplers, non-default parser unless any_parser, shared core graph objects)."""
     if not isinstance(proxy, Proxy):
@@ -130,7 +130,9 @@ def dump_proxy(proxy, any_parser=False):
     for key, grp in groups.items():
         if not isinstance(key, str) or type(grp) is not ProxyGroup:
             raise Unexpected("group entry %r" % (key,))
-        if type(grp.sampler) is not GraphSampler or grp.sampler.unique is not False:
+        if key in custom_samplers:
+            pass      # a custom NON-RESTRICTING sampler installed by the harness (it returns every graph it is given)
+        elif type(grp.sampler) is not GraphSampler or grp.sampler.unique is not False:
             raise Unexpected("group %r does not use the default GraphSampler(unique=False)" % key)
         if grp.sampler is core.sampler:
             raise Unexpected("group %r shares the core sampler" % key)
